@@ -74,7 +74,10 @@ def file_bytes(node):
     while len(out) < node["size"]:
         out += blk
         blk = hashlib.sha256(blk).digest()
-    return bytes(out[: node["size"]])
+    data = bytes(out[: node["size"]])
+    if node.get("flip"):  # the same file after an in-place rewrite: same length, every byte changed
+        data = bytes(b ^ 0xFF for b in data)
+    return data
 
 
 def materialise(spec, path: bytes):
